@@ -95,6 +95,9 @@ def fold(s: S) -> S:
                     and all(is_const(x) for x in b[1]):
                 r = any(const_eq(a, x) for x in b[1])
                 return K_TRUE if (r == (op == "in")) else K_FALSE
+            if is_const(a) and isinstance(b, tuple) and b and b[0] == "dict" and all(is_const(k) for k, _ in b[1]):
+                r = any(const_eq(a, k) for k, _ in b[1])
+                return K_TRUE if (r == (op == "in")) else K_FALSE
             return ("cmp", op, a, b)
         return ("cmp", op, a, b)
     if tag == "ite":
@@ -127,6 +130,14 @@ def fold(s: S) -> S:
         return mk_call(fn, args, kwargs)
     if tag == "seq":
         return ("seq", fold_block(s[1]))
+    if tag == "s" and len(s) == 3:
+        base, key = fold(s[1]), fold(s[2])
+        # a constant table read at a constant key
+        if isinstance(base, tuple) and base and base[0] == "dict" and is_const(key) and all(is_const(k) for k, _ in base[1]):
+            hits = [v for k, v in base[1] if const_eq(key, k)]
+            if len(hits) == 1:
+                return hits[0]
+        return ("s", base, key)
     if tag == "proj" and len(s) == 4:
         v = fold(s[1])
         if isinstance(v, tuple) and v and v[0] in ("tuple", "list") and len(v[1]) == s[3]:
